@@ -21,6 +21,7 @@ inductive Ev
   | wr | pk (p : Out) | wrOk | wrFail        -- a write: start, its packets, its end (failed = try_again)
   | deliver (qos pid msg : Nat)              -- `async_receive` hands a message to the application
   | reset                                    -- cancel() / disconnect: queued writes are aborted, waiters cancelled, channel closed
+  | subOk                                    -- a SUBACK with a success code was processed (`subscriptions_present(true)`)
   deriving Repr, DecidableEq, Inhabited
 
 /-- an acknowledgement in the write in progress, with the message its operation holds -/
@@ -37,6 +38,7 @@ structure S where
   fastRel : Nat → Bool := fun _ => false        -- a good PUBREL arrived while nobody waited; usable until the next write starts
   stored : List (Nat × Nat × Nat) := []         -- receive channel: (qos, pid, msg), oldest first
   writing : Bool := false
+  subs : Bool := false                          -- `subscriptions_present`: a subscription succeeded since the start / the last report
 
 def upd {α : Type} (f : Nat → α) (k : Nat) (v : α) : Nat → α := fun i => if i = k then v else f i
 
@@ -81,8 +83,11 @@ def requeue (s : S) : S :=
 
 def step (s : S) : Ev → Option S
   | .connUp sp =>
-    -- session not resumed: `clear_pending_pubrels()`; then `resend()`
-    some (requeue (if sp then s else { s with waiter := fun _ => none }))
+    -- `update_session_state()`: session not resumed → `clear_pending_pubrels()` and, if a subscription had succeeded, `session_expired` goes
+    -- into the receive channel (written here as the item (9, 0, 0), which no message uses); then `resend()`
+    if sp then some (requeue s)
+    else some (requeue { s with waiter := fun _ => none, subs := false,
+                                stored := if s.subs then s.stored ++ [(9, 0, 0)] else s.stored })
   | .rxPub qos pid msg =>
     if qos = 0 then some { s with stored := s.stored ++ [(0, pid, msg)] }
     else if qos = 1 then some { s with ackQ := s.ackQ ++ [(pid, msg)] }
@@ -102,6 +107,7 @@ def step (s : S) : Ev → Option S
     | x :: rest => if x = (qos, pid, msg) then some { s with stored := rest } else none
     | [] => none
   | .reset => some { s with ackQ := [], recQ := [], compQ := [], waiter := fun _ => none, stored := [] }
+  | .subOk => some { s with subs := true }
 
 def run (s : S) : List Ev → Option S
   | [] => some s
@@ -121,6 +127,16 @@ def firstReject (s : S) : List Ev → Nat → Option Nat
 /-- the messages received with this QoS, in order of arrival -/
 def received (q : Nat) (tr : List Ev) : List Nat :=
   tr.filterMap fun e => match e with | .rxPub q' _ m => if q' = q then some m else none | _ => none
+/-- how many `session_expired` reports are due: one for every reconnect with Session Present = 0 that follows a successful subscription
+not yet reported (the flag is the client's `subscriptions_present`) — computed from the events alone -/
+def expiryStep (st : Bool × Nat) : Ev → Bool × Nat
+  | .subOk => (true, st.2)
+  | .connUp sp => if sp then st else (false, if st.1 then st.2 + 1 else st.2)
+  | _ => st
+def expiryDue (tr : List Ev) : Nat := (tr.foldl expiryStep (false, 0)).2
+/-- a `session_expired` is handed to the application -/
+def isDeliverExp : Ev → Bool | .deliver q _ _ => q == 9 | _ => false
+
 /-- the messages of this QoS handed to the application, in order -/
 def delivered (q : Nat) (tr : List Ev) : List Nat :=
   tr.filterMap fun e => match e with | .deliver q' _ m => if q' = q then some m else none | _ => none
